@@ -272,6 +272,15 @@ class ObjInterp:
             return out
         if isinstance(e, ast.Call):
             return self._call_paths(m, e, pth, depth)
+        if isinstance(e, ast.BinOp) and isinstance(e.op, (ast.Add, ast.Sub)):
+            out = []
+            for p1, a in self._eval_paths(m, e.left, pth, depth):
+                for p2, b in self._eval_paths(m, e.right, p1, depth):
+                    v = UNK
+                    if a is not UNK and b is not UNK and isinstance(a, (int, float)) and isinstance(b, (int, float)) and not isinstance(a, bool) and not isinstance(b, bool):
+                        v = a + b if isinstance(e.op, ast.Add) else a - b
+                    out.append((p2, v))
+            return out
         if isinstance(e, (ast.Dict, ast.List, ast.Tuple, ast.Set, ast.ListComp, ast.DictComp, ast.SetComp, ast.GeneratorExp,
                           ast.JoinedStr, ast.Subscript, ast.BinOp, ast.Lambda, ast.Starred, ast.NamedExpr)):
             # evaluate nested calls for their effects, value unknown
